@@ -9,15 +9,17 @@ package c40
 
 import (
 	"encoding/binary"
+	"encoding/json"
 	"fmt"
 	"math/big"
 	"os"
+	"os/exec"
+	"path/filepath"
 	"runtime"
 	"runtime/debug"
 	"sort"
 	"strings"
 	"sync"
-	"sync/atomic"
 	"time"
 
 	"cosmossdk.io/math"
@@ -136,15 +138,19 @@ type item struct {
 	policy int32
 }
 
-type viol struct{ key, what string; replay interface{} }
+type viol struct {
+	Key, What string
+	Replay    interface{}
+}
 
 type result struct {
-	draws, states, nontrivial int64
-	vectors                   map[string]bool
-	maxDev                    float64
-	minCount                  int64
-	viols                     []viol
-	sample                    interface{}
+	Draws, States, Nontrivial, Skipped int64
+	vectors                            map[string]bool
+	Vectors                            []string
+	MaxDev                             float64
+	MinCount                           int64
+	Viols                              []viol
+	Sample                             interface{}
 }
 
 func entriesOf(cfg []ptype) []epochstoragetypes.StakeEntry {
@@ -210,7 +216,7 @@ func (w *worker) explore(it item, m int, res *result) {
 		return fmt.Sprintf("providers %s policy geolocation %s, %d slots, pick #%d (slot index %d), already picked mask %b", cfgString(cfg), geoName(it.policy), m, d, flat[d].slot, mask)
 	}
 	if len(flat) != m {
-		res.viols = append(res.viols, viol{"harness/slot-count", fmt.Sprintf("CalcSlots/GroupSlots give %d slots for MaxProvidersToPair=%d", len(flat), m), nil})
+		res.Viols = append(res.Viols, viol{"harness/slot-count", fmt.Sprintf("CalcSlots/GroupSlots give %d slots for MaxProvidersToPair=%d", len(flat), m), nil})
 		return
 	}
 	// required geolocation of each slot: read from the real slot, must be a single geolocation of the policy
@@ -218,7 +224,7 @@ func (w *worker) explore(it item, m int, res *result) {
 	for d, p := range flat {
 		gr, ok := slots[p.slot].Reqs["geo-req"].(pairingscores.GeoReq)
 		if !ok || gr.Geo&it.policy == 0 || gr.Geo&(gr.Geo-1) != 0 {
-			res.viols = append(res.viols, viol{"slot-geo-not-in-policy", fmt.Sprintf("slot %d requires geolocation %v, policy %d", p.slot, slots[p.slot].Reqs["geo-req"], it.policy), nil})
+			res.Viols = append(res.Viols, viol{"slot-geo-not-in-policy", fmt.Sprintf("slot %d requires geolocation %v, policy %d", p.slot, slots[p.slot].Reqs["geo-req"], it.policy), nil})
 			return
 		}
 		reqGeo[d] = gr.Geo
@@ -243,7 +249,7 @@ func (w *worker) explore(it item, m int, res *result) {
 			for gi := 0; gi < flat[d].g; gi++ {
 				pg := groups[gi]
 				if err := pairingscores.CalcPairingScore(scores, pairingscores.GetStrategy(), pg.Subtract(prev)); err != nil {
-					res.viols = append(res.viols, viol{"score-error", where(d, st.mask) + ": " + err.Error(), nil})
+					res.Viols = append(res.Viols, viol{"score-error", where(d, st.mask) + ": " + err.Error(), nil})
 					failed = true
 					break
 				}
@@ -256,7 +262,7 @@ func (w *worker) explore(it item, m int, res *result) {
 				continue
 			}
 			if err := pairingscores.CalcPairingScore(scores, pairingscores.GetStrategy(), g.Subtract(prev)); err != nil {
-				res.viols = append(res.viols, viol{"score-error", where(d, st.mask) + ": " + err.Error(), nil})
+				res.Viols = append(res.Viols, viol{"score-error", where(d, st.mask) + ": " + err.Error(), nil})
 				continue
 			}
 			base := make([]bool, n)
@@ -294,7 +300,7 @@ func (w *worker) explore(it item, m int, res *result) {
 			}
 			_, N, problem := draw(0)
 			if problem != "" && problem != "nobody" {
-				res.viols = append(res.viols, viol{"harness/draw", where(d, st.mask) + ": " + problem, nil})
+				res.Viols = append(res.Viols, viol{"harness/draw", where(d, st.mask) + ": " + problem, nil})
 				continue
 			}
 			counts := make([]int64, n)
@@ -314,7 +320,7 @@ func (w *worker) explore(it item, m int, res *result) {
 					continue
 				}
 				if problem != "" || n2 != N {
-					res.viols = append(res.viols, viol{"harness/draw", fmt.Sprintf("%s: answer %d: %s (Int63n argument %d, before %d)", where(d, st.mask), v, problem, n2, N), nil})
+					res.Viols = append(res.Viols, viol{"harness/draw", fmt.Sprintf("%s: answer %d: %s (Int63n argument %d, before %d)", where(d, st.mask), v, problem, n2, N), nil})
 					break
 				}
 				counts[p]++
@@ -322,8 +328,8 @@ func (w *worker) explore(it item, m int, res *result) {
 					firstAnswer[p] = v
 				}
 			}
-			res.draws += N
-			res.states++
+			res.Draws += N
+			res.States++
 
 			// --- fast path == fresh path (three answers per state)
 			for _, v := range []int64{0, N / 2, N - 1} {
@@ -341,7 +347,7 @@ func (w *worker) explore(it item, m int, res *result) {
 					pf = -1
 				}
 				if pf != ps {
-					res.viols = append(res.viols, viol{"harness/fast-path", fmt.Sprintf("%s: answer %d picks provider %d with restored flags but %d on fresh scores", where(d, st.mask), v, pf, ps), nil})
+					res.Viols = append(res.Viols, viol{"harness/fast-path", fmt.Sprintf("%s: answer %d picks provider %d with restored flags but %d on fresh scores", where(d, st.mask), v, pf, ps), nil})
 				}
 			}
 
@@ -351,7 +357,7 @@ func (w *worker) explore(it item, m int, res *result) {
 				"answers_reaching_state": st.prefix, "int63n_argument": N, "counts": counts}
 			if nobody > 0 {
 				rep["first_answer_picking_nobody"] = firstNobody
-				res.viols = append(res.viols, viol{"draw-picks-nobody", fmt.Sprintf("%s: %d of the %d possible random values fill the slot with no provider (first: %d)", where(d, st.mask), nobody, N, firstNobody), rep})
+				res.Viols = append(res.Viols, viol{"draw-picks-nobody", fmt.Sprintf("%s: %d of the %d possible random values fill the slot with no provider (first: %d)", where(d, st.mask), nobody, N, firstNobody), rep})
 			}
 			var vec []string
 			distinct := map[string]bool{}
@@ -360,7 +366,7 @@ func (w *worker) explore(it item, m int, res *result) {
 			for i := 0; i < n; i++ {
 				if st.mask&(1<<i) != 0 {
 					if counts[i] != 0 {
-						res.viols = append(res.viols, viol{"picked-again", fmt.Sprintf("%s: provider %d (already picked) is picked again by %d values", where(d, st.mask), i, counts[i]), rep})
+						res.Viols = append(res.Viols, viol{"picked-again", fmt.Sprintf("%s: provider %d (already picked) is picked again by %d values", where(d, st.mask), i, counts[i]), rep})
 					}
 					continue
 				}
@@ -371,28 +377,28 @@ func (w *worker) explore(it item, m int, res *result) {
 				distinct[sc.RatString()] = true
 				dev := new(big.Rat).Sub(big.NewRat(counts[i], 1), sc)
 				dev.Abs(dev)
-				if f, _ := dev.Float64(); f > res.maxDev {
-					res.maxDev = f
+				if f, _ := dev.Float64(); f > res.MaxDev {
+					res.MaxDev = f
 				}
-				if counts[i] < res.minCount || res.minCount == 0 {
-					res.minCount = counts[i]
+				if counts[i] < res.MinCount || res.MinCount == 0 {
+					res.MinCount = counts[i]
 				}
 				if counts[i] == 0 {
 					rep["expected"] = expected
-					res.viols = append(res.viols, viol{"zero-chance", fmt.Sprintf("%s: provider %d (%s, score %s) is picked by none of the %d possible random values", where(d, st.mask), i, cfg[i], sc.FloatString(3), N), rep})
+					res.Viols = append(res.Viols, viol{"zero-chance", fmt.Sprintf("%s: provider %d (%s, score %s) is picked by none of the %d possible random values", where(d, st.mask), i, cfg[i], sc.FloatString(3), N), rep})
 				} else if dev.Cmp(big.NewRat(1, 1)) > 0 {
 					rep["expected"] = expected
-					res.viols = append(res.viols, viol{"count-not-proportional", fmt.Sprintf("%s: provider %d (%s) is picked by %d of %d values, its stake x geo score is %s", where(d, st.mask), i, cfg[i], counts[i], N, sc.FloatString(3)), rep})
+					res.Viols = append(res.Viols, viol{"count-not-proportional", fmt.Sprintf("%s: provider %d (%s) is picked by %d of %d values, its stake x geo score is %s", where(d, st.mask), i, cfg[i], counts[i], N, sc.FloatString(3)), rep})
 				}
 			}
 			if unpicked >= 2 && len(distinct) >= 2 {
-				res.nontrivial++
+				res.Nontrivial++
 				sort.Strings(vec)
 				res.vectors[fmt.Sprintf("%d|%s", reqGeo[d], strings.Join(vec, ","))] = true
 			}
-			if res.sample == nil && d >= 1 && len(distinct) >= 2 {
+			if res.Sample == nil && d >= 1 && len(distinct) >= 2 {
 				rep["expected"] = expected
-				res.sample = rep
+				res.Sample = rep
 			}
 			// --- successors: one representative per set of picked providers
 			for i := 0; i < n; i++ {
@@ -592,27 +598,139 @@ func overlayActive() bool {
 	return err == nil && len(ns) == 1
 }
 
-func runCheck(run *ev.Run) {
-	nw := runtime.GOMAXPROCS(0)
-	if nw > 16 {
-		nw = 16
-	}
-	workers = nil
-	for i := 0; i < nw; i++ {
-		h := make([]byte, 8)
-		binary.LittleEndian.PutUint64(h, uint64(i))
-		workers = append(workers, &worker{id: i, hash: h})
-	}
+func setup() {
+	h := make([]byte, 8)
+	workers = []*worker{{id: 0, hash: h}}
 	RngHook = hook
 	if !overlayActive() {
 		fmt.Fprintln(os.Stderr, "HARNESS ERROR: C40 needs the derived overlay that routes PickProviders' random source to the harness: "+
 			"python3 tools/overlaygen_c40.py && go build -tags verif -overlay .cache/overlay/c40/overlay.json ...")
 		os.Exit(3)
 	}
+}
+
+// the work list of part P (identical in the parent and in every shard process)
+func workList(thorough bool) (items []item, bound string) {
+	add := func(cfgs [][]ptype) {
+		for _, c := range cfgs {
+			for _, pg := range policyGeos {
+				items = append(items, item{c, pg})
+			}
+		}
+	}
+	add(tuples(2))
+	switch {
+	case os.Getenv("C40_ONLY2") != "":
+		bound = "2 providers: every ordered list"
+	case thorough:
+		add(multisets(3, 1, stakes))
+		add(multisets(4, 2, []int64{1, 2}))
+		bound = "2 providers: every ordered list; 3 providers: every multiset in stake-descending order (the keeper's order) and reversed; " +
+			"4 providers: every multiset with stake in {1,2}, alternately stake-descending and reversed"
+	default:
+		add(multisets(3, 2, []int64{1, 2}))
+		add(multisets(4, 2, []int64{1}))
+		bound = "2 providers: every ordered list; 3 providers: every multiset with stake in {1,2}, alternately in stake-descending order (the keeper's order) and reversed; " +
+			"4 providers: every multiset with stake 1, alternately in both orders"
+	}
+	// heavy items first (round-robin over the shards then balances them)
+	weight := func(it item) int64 {
+		var t int64
+		for _, p := range it.cfg {
+			t += p.Stake
+		}
+		n := int64(len(it.cfg))
+		return t * n * n
+	}
+	sort.SliceStable(items, func(i, j int) bool { return weight(items[i]) > weight(items[j]) })
+	return items, bound
+}
+
+// shardMain runs in a child process (GOMAXPROCS=1; the code under test allocates on every call and Go's collector
+// scales badly over many Ps on a busy machine): items k = i mod n, result as JSON into the given file.
+func shardMain(spec string) {
+	var i, n int
+	var deadline int64
+	var out string
+	if _, err := fmt.Sscanf(spec, "%d/%d/%d/%s", &i, &n, &deadline, &out); err != nil {
+		fmt.Fprintln(os.Stderr, "c40 shard: bad spec", spec, err)
+		os.Exit(3)
+	}
+	setup()
+	debug.SetGCPercent(400)
+	items, _ := workList(ev.Tier() == "thorough")
+	res := &result{vectors: map[string]bool{}}
+	for k := i; k < len(items); k += n {
+		if time.Now().Unix() >= deadline {
+			res.Skipped++
+			continue
+		}
+		for _, m := range slotCounts(items[k].policy, len(items[k].cfg)) {
+			workers[0].explore(items[k], m, res)
+		}
+	}
+	for k := range res.vectors {
+		res.Vectors = append(res.Vectors, k)
+	}
+	b, _ := json.Marshal(res)
+	if err := os.WriteFile(out, b, 0o644); err != nil {
+		fmt.Fprintln(os.Stderr, "c40 shard:", err)
+		os.Exit(3)
+	}
+}
+
+func runCheck(run *ev.Run) {
+	setup()
 	thorough := ev.Tier() == "thorough"
 	t0 := time.Now()
+	deadline := t0.Add(100 * time.Second)
+	if thorough {
+		deadline = t0.Add(14 * time.Minute)
+	}
+	items, bound := workList(thorough)
 
-	// part Q
+	// part P: every random value of every slot state, in shard processes
+	nsh := runtime.NumCPU()
+	if nsh > 16 {
+		nsh = 16
+	}
+	exe, _ := os.Executable()
+	dir, err := os.MkdirTemp("", "c40shards")
+	if err != nil {
+		panic(err)
+	}
+	defer os.RemoveAll(dir)
+	results := make([]*result, nsh)
+	shardErr := make([]string, nsh)
+	var wg sync.WaitGroup
+	for i := 0; i < nsh; i++ {
+		wg.Add(1)
+		go func(i int) {
+			defer wg.Done()
+			out := filepath.Join(dir, fmt.Sprintf("shard%d.json", i))
+			cmd := exec.Command(exe, os.Args[1:]...)
+			cmd.Env = append(os.Environ(), fmt.Sprintf("C40_SHARD=%d/%d/%d/%s", i, nsh, deadline.Unix(), out), "GOMAXPROCS=1")
+			cmd.Stdout = os.Stderr
+			cmd.Stderr = os.Stderr
+			if err := cmd.Run(); err != nil {
+				shardErr[i] = err.Error()
+				return
+			}
+			b, err := os.ReadFile(out)
+			if err != nil {
+				shardErr[i] = err.Error()
+				return
+			}
+			r := &result{}
+			if err := json.Unmarshal(b, r); err != nil {
+				shardErr[i] = err.Error()
+				return
+			}
+			results[i] = r
+		}(i)
+	}
+
+	// part Q meanwhile in this process
 	qMax := 3
 	if thorough {
 		qMax = 4
@@ -622,88 +740,39 @@ func runCheck(run *ev.Run) {
 		qCases, qCompared = partQ(run, qMax)
 	}
 	tQ := time.Now()
-
-	// part P: every random value of every slot state
-	var items []item
-	var bound []string
-	add := func(cfgs [][]ptype) {
-		for _, c := range cfgs {
-			for _, pg := range policyGeos {
-				items = append(items, item{c, pg})
-			}
-		}
-	}
-	add(tuples(2))
-	deadline := t0.Add(100 * time.Second)
-	if os.Getenv("C40_ONLY2") != "" {
-	} else if thorough {
-		deadline = t0.Add(14 * time.Minute)
-		add(multisets(3, 1, stakes))
-		add(multisets(4, 2, []int64{1, 2}))
-		bound = append(bound, "2 providers: every ordered list; 3 providers: every multiset in stake-descending order (the keeper's order) and reversed; "+
-			"4 providers: every multiset with stake in {1,2}, alternately stake-descending and reversed")
-	} else {
-		add(multisets(3, 2, []int64{1, 2}))
-		add(multisets(4, 2, []int64{1}))
-		bound = append(bound, "2 providers: every ordered list; 3 providers: every multiset with stake in {1,2}, alternately in stake-descending order (the keeper's order) and reversed; "+
-			"4 providers: every multiset with stake 1, alternately in both orders")
-	}
-	// heavy items first
-	sort.SliceStable(items, func(i, j int) bool { return len(items[i].cfg) > len(items[j].cfg) })
-	// the code under test allocates a few small objects per call on a tiny live heap: collect less often
-	oldGC := debug.SetGCPercent(800)
-	defer debug.SetGCPercent(oldGC)
-	var nextItem int64 = -1
-	var skipped int64
-	results := make([]*result, nw)
-	var wg sync.WaitGroup
-	for wi := 0; wi < nw; wi++ {
-		wg.Add(1)
-		go func(w *worker) {
-			defer wg.Done()
-			res := &result{vectors: map[string]bool{}}
-			results[w.id] = res
-			for {
-				k := int(atomic.AddInt64(&nextItem, 1))
-				if k >= len(items) {
-					return
-				}
-				if time.Now().After(deadline) {
-					atomic.AddInt64(&skipped, 1)
-					continue
-				}
-				it := items[k]
-				for _, m := range slotCounts(it.policy, len(it.cfg)) {
-					w.explore(it, m, res)
-				}
-			}
-		}(workers[wi])
-	}
 	wg.Wait()
 	tP := time.Now()
 
-	var draws, states, nontrivial int64
+	var draws, states, nontrivial, skipped int64
 	vectors := map[string]bool{}
 	maxDev := 0.0
 	minCount := int64(0)
-	for _, r := range results {
-		draws += r.draws
-		states += r.states
-		nontrivial += r.nontrivial
-		for k := range r.vectors {
+	exhaustive := true
+	for i, r := range results {
+		if r == nil {
+			run.Set(fmt.Sprintf("shard%d.error", i), shardErr[i])
+			fmt.Fprintf(os.Stderr, "HARNESS ERROR: C40 shard %d failed: %s\n", i, shardErr[i])
+			exhaustive = false
+			continue
+		}
+		draws += r.Draws
+		states += r.States
+		nontrivial += r.Nontrivial
+		skipped += r.Skipped
+		for _, k := range r.Vectors {
 			vectors[k] = true
 		}
-		if r.maxDev > maxDev {
-			maxDev = r.maxDev
+		if r.MaxDev > maxDev {
+			maxDev = r.MaxDev
 		}
-		if r.minCount > 0 && (minCount == 0 || r.minCount < minCount) {
-			minCount = r.minCount
+		if r.MinCount > 0 && (minCount == 0 || r.MinCount < minCount) {
+			minCount = r.MinCount
 		}
-		for _, v := range r.viols {
-			run.Violate(ev.Violation{Key: v.key, What: v.what, Replay: v.replay})
+		for _, v := range r.Viols {
+			run.Violate(ev.Violation{Key: v.Key, What: v.What, Replay: v.Replay})
 		}
-		if r.sample != nil {
-			run.Sample(r.sample)
+		if r.Sample != nil {
+			run.Sample(r.Sample)
 		}
 	}
 	run.Set("evaluations", draws+qCompared)
@@ -712,21 +781,23 @@ func runCheck(run *ev.Run) {
 	run.Set("slot_states_with_different_scores", nontrivial)
 	run.Set("distinct_nontrivial", int64(len(vectors)))
 	run.Set("configurations_x_policies", int64(len(items)))
+	run.Set("configurations_x_policies_skipped_by_deadline", skipped)
 	run.Set("max_abs_deviation_count_vs_score", maxDev)
 	run.Set("min_count_of_an_unpicked_provider", minCount)
 	run.Set("query_configurations", qCases)
 	run.Set("query_answers_compared", qCompared)
-	run.Set("part_wall_s", map[string]float64{"Q": tQ.Sub(t0).Seconds(), "P": tP.Sub(tQ).Seconds()})
-	run.Set("exhaustive", skipped == 0)
-	run.Set("configurations_x_policies_skipped_by_deadline", skipped)
+	run.Set("shard_processes", int64(nsh))
+	run.Set("part_wall_s", map[string]float64{"Q": tQ.Sub(t0).Seconds(), "P": tP.Sub(t0).Seconds()})
+	run.Set("exhaustive", exhaustive && skipped == 0)
 	run.Set("rule", "P: a slot state = (provider list, policy geolocation, MaxProvidersToPair, pick number, set of already picked providers); for every state EVERY "+
 		"answer 0..n-1 of the rng.Int63n(n) call of that pick is fed to the real PickProviders and the picks are counted; oracle per unpicked provider: "+
 		"|count - stake x geoScore| <= 1 and count >= 1, already picked providers get 0, no value leaves the slot empty. "+
 		"distinct_nontrivial = distinct (required geolocation, multiset of reference scores of the unpicked providers) with >= 2 different scores that were counted. "+
 		"Q: CalculatePairingChance and the ProviderPairingChance query on the real keepers == score share of the first slot (1e-17).")
-	run.Set("bound", fmt.Sprintf("P: stake in %v ulava x provider geolocation in {USC, EU, USC|EU, AU(far from both)}; %s; policy geolocation in {USC, EU, USC|EU}; MaxProvidersToPair in 1..min(3, providers-1), skipping a value whose pick sequence (required geolocations) is a proper prefix of that of a larger explored value "+
+	run.Set("bound", fmt.Sprintf("P: stake in %v ulava x provider geolocation in {USC, EU, USC|EU, AU(far from both)}; %s; policy geolocation in {USC, EU, USC|EU}; "+
+		"MaxProvidersToPair in 1..min(3, providers-1), skipping a value whose pick sequence (required geolocations) is a proper prefix of that of a larger explored value "+
 		"(no mixed filters: selected-providers mode and add-ons unset); pick k+1 explored from one representative answer per set of already picked providers. "+
-		"Q: every multiset of 2..%d such providers (stake unit %d ulava) staked by transactions, policy geolocation in {USC, EU, USC|EU}", stakes, strings.Join(bound, "; "), qMax, qUnit))
+		"Q: every multiset of 2..%d such providers (stake unit %d ulava) staked by transactions, policy geolocation in {USC, EU, USC|EU}", stakes, bound, qMax, qUnit))
 	run.Assume("the probability over epoch hashes is read as the exact measure over the values of rng.Int63n(n): math/rand's Int63n is uniform on [0,n) for a uniform source, and seeding from sha256(epoch hash, chain, project, group) is taken as uniform (a derived overlay replaces only the line `rng := rand.New(hashData)` of score.go by a stand-in whose Int63n asks the harness)")
 	run.Assume("'within statistical tolerance' is sharpened to: the number of random values that pick a provider differs from its stake x geo score by at most 1 (rounding of the cumulative decimal sums)")
 	run.Assume("the geolocation score of the reference is 10000/latency with latency 1 (served), 170 (USC<->EU, the repo's published latency table) and 10000 (no entry)")
@@ -735,4 +806,10 @@ func runCheck(run *ev.Run) {
 
 func init() {
 	reg.Register(reg.Check{Property: "C40", Level: "exploration", Run: runCheck})
+	// shard mode of part P: the parent re-executes its own binary with C40_SHARD set (works in every binary that
+	// links this package, no dispatcher support needed); all imported packages are initialised at this point.
+	if spec := os.Getenv("C40_SHARD"); spec != "" {
+		shardMain(spec)
+		os.Exit(0)
+	}
 }
